@@ -5,6 +5,7 @@ use crate::error::RequestError;
 use crate::error::*;
 use crate::types::{AddressRange, Indexed};
 use crate::shims::scursor::{ReadCursor, WriteCursor};
+use vstd::std_specs::iter::IteratorSpec;
 
 //@item rodbus/src/client/requests/write_multiple.rs | WriteMultiple | derive=
 
@@ -17,4 +18,32 @@ impl<T> WriteMultiple<T> {
 //@|    ensures
 //@|        r is Ok <==> (1 <= values@.len() <= 65535 && start as int + values@.len() <= 65536),
 //@|        r is Ok ==> r->Ok_0.range.start == start && r->Ok_0.values@ == values@ && r->Ok_0.wf(),
+}
+
+// ---- C07 / C20: the iterator the client's request decoding (logging) walks a write-multiple request with: one (address, value)
+// pair per value, addresses counted from the start of the range without overflow (the range covers exactly the values)
+//@item rodbus/src/client/requests/write_multiple.rs | WriteMultipleIterator
+impl<'a, T> WriteMultipleIterator<'a, T> {
+    #[verifier::prophetic]
+    pub open spec fn wf(&self) -> bool {
+        self.range.wf() && self.pos <= self.range.count && self.iter.remaining().len() == self.range.count - self.pos
+    }
+//@fn rodbus/src/client/requests/write_multiple.rs | WriteMultipleIterator<'a,T>::new | tags=C07,C20
+//@|    requires range.wf(), iter.remaining().len() == range.count as int,
+//@|    ensures r.wf(), r.pos == 0, r.range == range, r.iter.remaining() == iter.remaining(),
+}
+impl<T: Copy> WriteMultipleIterator<'_, T> {
+//@fn rodbus/src/client/requests/write_multiple.rs | Iterator for WriteMultipleIterator<'_,T>::next | tags=C07,C20 | inherent | sub=Self::Item=>Indexed<T>
+//@|    requires old(self).wf(),
+//@|    ensures final(self).wf(), final(self).range == old(self).range,
+//@|        old(self).pos == old(self).range.count ==> r is None && final(self).pos == old(self).pos,
+//@|        old(self).pos < old(self).range.count ==> final(self).pos == old(self).pos + 1 && r is Some
+//@|            && r->0.index as int == old(self).range.start + old(self).pos && r->0.value == *old(self).iter.remaining()[0],
+//@fn rodbus/src/client/requests/write_multiple.rs | Iterator for WriteMultipleIterator<'_,T>::size_hint | tags=C07 | inherent
+//@|    requires self.wf(),
+}
+impl<T> WriteMultiple<T> {
+//@fn rodbus/src/client/requests/write_multiple.rs | WriteMultiple<T>::iter | tags=C07,C20
+//@|    requires self.wf(),
+//@|    ensures r.wf(), r.pos == 0, r.range == self.range,
 }
